@@ -68,7 +68,9 @@ def main():
     args = sys.argv[1:]
     pairs = list(zip(args[0::2], args[1::2]))
     for prop, n in pairs:
-        src = f"/tmp/seed/{prop}/SEED/{n}"
+        root = os.environ.get("SEED_ROOT", "/tmp/seed")
+        offset = int(os.environ.get("SEED_OFFSET", "0"))
+        src = f"{root}/{prop}/SEED/{n}"
         if not os.path.isdir(src):
             print(prop, n, "no such seed directory")
             continue
@@ -105,7 +107,7 @@ def main():
         print(prop, n, "CONFIRMED" if confirmed else "NOT CONFIRMED", json.dumps({k: v for k, v in log.items() if k != "demo_output_with_change"}))
         if not confirmed:
             continue
-        dst = f"/verif/seeded/{prop}-{n}"
+        dst = f"/verif/seeded/{prop}-{int(n) + offset}"
         os.makedirs(dst, exist_ok=True)
         for f in os.listdir(src):
             shutil.copy(os.path.join(src, f), os.path.join(dst, f))
@@ -115,7 +117,7 @@ def main():
             "property": prop,
             "summary": first[:300],
             "needs_to_manifest": "see notes.md",
-            "origin": "written by a sub-agent that was given only the property text and a scratch worktree",
+            "origin": "written by a sub-agent that was given only the property text and a scratch worktree" + (" (round 2: also told the one-line ideas of the round-1 changes for this property, to avoid repeats)" if offset else ""),
             "confirmed_by_me": {
                 "worktree": WT + " (scratch worktree of /repo HEAD " + sh("git -C /repo rev-parse --short HEAD").stdout.strip() + ")",
                 "commands": [
